@@ -130,7 +130,7 @@ def _mc_cfg(thorough):
     p = os.path.join(vlib.rundir("cfg"), "dfirtick_mc.cfg")
     with open(p, "w") as f:
         f.write("SPECIFICATION Spec\nCONSTANTS\n  MaxSteps = %d\n  Dom = %s\n  MaxLen = %d\n  Fuel = 8\n"
-                "INVARIANT Inv\nCHECK_DEADLOCK FALSE\n" % ((3, "{0, 1, 2}", 1) if thorough else (2, "{0, 2}", 1)))
+                "INVARIANT Inv\nCHECK_DEADLOCK FALSE\n" % ((3, "{0, 2}", 1) if thorough else (2, "{0, 2}", 1)))
     return p
 
 
